@@ -45,6 +45,13 @@ def dpow(a, n):
     return {k: v * Fr(n) for k, v in a.items() if v * Fr(n) != 0}
 
 
+PINT_NAMES = {"L": "[length]", "M": "[mass]", "T": "[time]", "I": "[current]"}
+
+
+def pint_dims(d):
+    return {PINT_NAMES[k]: v for k, v in d.items()}
+
+
 def dstr(d):
     return "*".join(f"{k}^{v}" for k, v in sorted(d.items())) or "1"
 
@@ -276,14 +283,14 @@ class DimInterp(Interp):
             if attr == "dimensionless":
                 return not base.unit.dims
             if attr == "dimensionality":
-                return dstr(base.unit.dims)
+                return pint_dims(base.unit.dims)
             if attr in ("to", "to_base_units", "squeeze", "sum", "min", "max"):
                 return BoundMethod(base, attr)
             if attr == "T":
                 return base
         if isinstance(base, UnitV):
             if attr == "dimensionality":
-                return dstr(base.dims)
+                return pint_dims(base.dims)
             if attr == "units":
                 return base
         if isinstance(base, Obj) and attr not in base.attrs and base.cls is not None:
